@@ -43,10 +43,9 @@ func SplitAnnexBDetailed(b []byte) ([]NAL, error) {
 		} else {
 			nal.StartCodeLen = 3
 		}
-		// scan to the next start code or the end
-		j := i
-		end, next, nz := -1, -1, 0
-		for j < n {
+		// scan to the next start code or to the end of the stream
+		end, next, run, foundSC := n, n, 0, false
+		for j := i; j < n; {
 			if b[j] != 0 {
 				j++
 				continue
@@ -55,51 +54,42 @@ func SplitAnnexBDetailed(b []byte) ([]NAL, error) {
 			for k < n && b[k] == 0 {
 				k++
 			}
-			run := k - j
-			switch {
-			case k == n: // trailing zeros up to the end
-				end, next, nz = j, n, run
-			case run >= 2 && b[k] == 1:
-				end, next, nz = j, k+1, run
-			case run >= 3:
-				return nil, fmt.Errorf("annex-b: 0x000000 at offset %d inside a NAL unit is not followed by a start code", j)
-			case run == 2 && b[k] == 2:
-				return nil, fmt.Errorf("annex-b: forbidden 0x000002 at offset %d", j)
-			}
-			if end >= 0 {
+			run = k - j
+			if k == n { // trailing_zero_8bits up to the end
+				end = j
 				break
 			}
+			if run >= 2 && b[k] == 1 {
+				end, next, foundSC = j, k+1, true
+				break
+			}
+			if run >= 3 {
+				return nil, fmt.Errorf("annex-b: 0x000000 at offset %d inside a NAL unit is not followed by a start code", j)
+			}
+			if run == 2 && b[k] == 2 {
+				return nil, fmt.Errorf("annex-b: forbidden 0x000002 at offset %d", j)
+			}
 			j = k
-		}
-		if end < 0 {
-			end, next = n, n
 		}
 		nal.Data = b[i:end]
 		if len(nal.Data) == 0 {
 			return nil, fmt.Errorf("annex-b: empty NAL unit at offset %d", i)
 		}
-		if next == n { // last unit
+		if !foundSC { // last unit
 			nal.TrailingZeros = n - end
-			out = append(out, nal)
-			return out, nil
+			return append(out, nal), nil
 		}
-		// zeros before the next 0x000001: the last two (three when available)
-		// belong to the start code, the others trail this unit
-		z = nz
-		sc := 2
-		if nz >= 3 {
-			sc = 3
+		// zeros before the next 0x000001: two belong to the prefix, a third is
+		// the zero_byte of a 4-byte start code, the others trail this unit
+		z = run
+		if z > 3 {
+			z = 3
 		}
-		nal.TrailingZeros = nz - sc
+		nal.TrailingZeros = run - z
 		out = append(out, nal)
 		i = next
 		if i >= n {
 			return nil, fmt.Errorf("annex-b: start code at the very end, empty NAL unit")
-		}
-		// for the next unit: z zeros preceded its 01; those beyond zero_byte
-		// were already counted as trailing zeros of this unit
-		if z > 3 {
-			z = 3
 		}
 	}
 }
